@@ -84,7 +84,7 @@ def derive_seed(seed, *parts):
 
 class R:
     """Outcome of running one case."""
-    __slots__ = ("fails", "nt", "cls", "amb", "excl")
+    __slots__ = ("fails", "nt", "cls", "amb", "excl", "repro", "weight")
 
     def __init__(self, nt=False, cls=(), amb=0, excl=0):
         self.fails = []
@@ -92,6 +92,8 @@ class R:
         self.cls = list(cls)
         self.amb = amb
         self.excl = excl
+        self.weight = 1     # number of elementary cases decided by this body call (batched enumerations)
+        self.repro = None   # optional minimal replayable case (bodies that run batches of inputs)
 
     def fail(self, bucket, msg):
         self.fails.append((bucket, str(msg)[:1500]))
@@ -151,7 +153,7 @@ class Ctx:
 
     # ---- accounting
     def account(self, case, r, enum=False):
-        self.evaluations += 1
+        self.evaluations += r.weight
         for c in r.cls:
             self.classes[c] += 1
         self.ambiguous += r.amb
@@ -159,7 +161,7 @@ class Ctx:
         if r.nt:
             self.classes["nontrivial"] += 1
             if enum:
-                self.nt_enum += 1
+                self.nt_enum += r.weight
             else:
                 self.nt_digests.add(digest(case))
         # samples: non-trivial cases only; first two, plus the first of each new class, at most 6
@@ -243,13 +245,14 @@ def drive_hypothesis(ctx, body, strategy, max_examples, shrink=True, name=None):
         unlisted = ctx.triage(case, r)
         if unlisted:
             state["last_fail"] = (case, unlisted[0])
+            state["repro"] = r.repro
             raise Violation(*unlisted[0])
 
     try:
         test()
     except Violation:
         case, (bucket, msg) = state["last_fail"]
-        ctx.violations.append({"bucket": bucket, "msg": msg, "case": case})
+        ctx.violations.append({"bucket": bucket, "msg": msg, "case": state.get("repro") or case})
     except hypothesis.errors.FailedHealthCheck as e:
         # generator bug, never a verdict
         raise HarnessError("health check failed in %s/%s: %s" % (ctx.prop, ctx.shard, e))
@@ -277,7 +280,7 @@ def drive_enum(ctx, body, cases, space=None, size=None, stop_on_first=True):
         if unlisted:
             bucket, msg = unlisted[0]
             if not any(v["bucket"] == bucket for v in ctx.violations):
-                ctx.violations.append({"bucket": bucket, "msg": msg, "case": case})
+                ctx.violations.append({"bucket": bucket, "msg": msg, "case": r.repro or case})
             if stop_on_first:
                 complete = False
                 break
